@@ -268,7 +268,10 @@ Record endpoint := {
   ep_net : netw;                    (* network given to the dialer *)
   ep_dial : list N;                 (* address given to the dialer *)
   ep_sni : option (list N);         (* TLS server name (tls, https, h3, quic) *)
-  ep_host : option (list N)         (* HTTP Host / :authority (http, https, h3) *)
+  ep_host : option (list N);        (* HTTP Host / :authority (http, https, h3) *)
+  ep_fallback : option (netw * list N)
+    (* the second kind of socket the upstream may open: a udp upstream retries a truncated (TC=1) reply over a
+       TCP connection (udpWithFallback.t); every other transport only ever re-dials its primary socket *)
 }.
 
 (* what NewUpstream computes once the scheme and the URL host are known *)
@@ -279,7 +282,14 @@ Definition endpoint_core (sc : scheme) (pl h3 : bool) (host dial_addr : list N) 
      ep_net := if is_stream sc h3 then network_of da else NUdp;
      ep_dial := da;
      ep_sni := if uses_tls sc then Some (try_remove_port uh) else None;
-     ep_host := if uses_http sc then Some host else None |}.
+     ep_host := if uses_http sc then Some host else None;
+     (* upstream.go case "", "udp": dialTcp = dialer.DialContext(ctx, "tcp", dialAddr) — the SAME dialAddr *)
+     ep_fallback := match sc with SUdp => Some (NTcp, da) | _ => None end |}.
+
+(* every (network, address) an upstream may ever hand to a dialer: the primary socket (re-dialled for every new
+   connection of a pipeline / reuse / http / quic transport) and the fallback socket *)
+Definition ep_sockets (ep : endpoint) : list (netw * list N) :=
+  (ep_net ep, ep_dial ep) :: match ep_fallback ep with Some s => [s] | None => [] end.
 
 (* NewUpstream(addr, Opt{DialAddr: dial_addr}) *)
 Definition endpoint_of (addr dial_addr : list N) : res endpoint :=
